@@ -3,6 +3,8 @@
 //! This module exists to ease the transition between channel libraries.
 #![allow(dead_code)]
 
+#[cfg(feature = "verif")]
+use crate::verif::flume_shim as flume;
 use std::time::Duration;
 
 use flume::{
@@ -128,6 +130,7 @@ impl<T: ChannelItem> Receiver<T> {
         self.0.try_recv().map_err(TryRecvError::from)
     }
 
+    #[cfg(not(feature = "verif"))]
     #[inline]
 
     pub async fn recv_async(&self) -> Result<T, RecvError> {
